@@ -13,18 +13,19 @@ ID = 'C12'
 LEVEL = 'exploration'
 RULE = ('case = (body: random bytes | well-formed multipart from the harness encoder with 0-4 grammar mutations {drop / duplicate a delimiter, remove the '
         'closing delimiter, truncate at any offset, break a header line: non-UTF-8 bytes, no colon, no name parameter, empty value, empty block, stray '
-        'quote / semicolon; bare CR / LF, non-UTF-8 text value, byte insert / replace / delete, junk preamble} | JSON: valid, invalid, non-object, nested '
+        'quote / semicolon, runs of 40-3000 backslashes / quotes / semicolons / blanks inside a parameter; bare CR / LF, non-UTF-8 text value, byte insert / replace / delete, junk preamble} | JSON: valid, invalid, non-object, nested '
         '10..100000 levels, non-UTF-8, BOM, empty | urlencoded text incl. stray % and non-ASCII bytes) x content type (matching / mismatching / missing '
         'boundary, multipart/mixed, JSON with parameters, upper case, none) x framing (Content-Length equal / short / long, chunked, truncated or corrupted '
         'chunked) x max_memfile_size in {8..102400} x accessor sequence over {forms, files, POST, params, json, body, query}. Oracle: nothing escapes, status '
-        'is 2xx or 4xx, nothing is written to wsgi.errors, the request finishes under a 30 s watchdog; every delivered text value / file content D occurs '
+        'is 2xx or 4xx, nothing is written to wsgi.errors, the request finishes under a 10 s watchdog; every delivered text value / file content D occurs '
         'in the de-framed body as CRLFCRLF + D + CRLF--boundary (a part terminated by a delimiter); a delivered JSON value equals json.loads of the '
         'body. Non-trivial = the body is not a well-formed instance of its content type (mutated, truncated, invalid) or the framing is broken; distinct '
         'by case hash.')
-ASSUMPTIONS = ['a 30 s watchdog (SIGALRM) operationalises "never hangs"; inputs normally take < 5 ms',
+ASSUMPTIONS = ['a 10 s watchdog (SIGALRM) operationalises "never hangs"; inputs normally take < 5 ms',
                'header values are Latin-1 text without CR/LF (what a server can deliver)']
 
 BOUNDS = ['b', 'bnd', '--b', 'X-1', 'a' * 40]
+WATCHDOG_S = 10
 
 
 def wellformed(draw, boundary):
@@ -43,7 +44,7 @@ def wellformed(draw, boundary):
     return body, truth
 
 
-MUTS = ['drop_delim', 'dup_delim', 'no_close', 'truncate', 'hdr_nonutf8', 'hdr_nocolon', 'hdr_noname', 'hdr_emptyval', 'hdr_emptyblock', 'hdr_quote', 'bare_cr', 'bare_lf',
+MUTS = ['hdr_run', 'hdr_run', 'drop_delim', 'dup_delim', 'no_close', 'truncate', 'hdr_nonutf8', 'hdr_nocolon', 'hdr_noname', 'hdr_emptyval', 'hdr_emptyblock', 'hdr_quote', 'bare_cr', 'bare_lf',
         'insert', 'replace', 'delete', 'preamble', 'hdr_only_name', 'lf_only', 'swap_halves']
 
 
@@ -64,6 +65,14 @@ def mutate(body, truth, mut, a, b, boundary):
         return body[:s - (b % 3)]
     if mut == 'truncate':
         return body[:pos]
+    if mut == 'hdr_run' and hdrs:
+        s, e = hdrs[a % len(hdrs)]
+        ch = [b'\\', b'"', b';', b'=', b' ', b'\t', b'a', b'\\"', b'; ', b'="'][b % 10]
+        run = ch * [40, 120, 400, 3000][a % 4]
+        shape = [b'Content-Disposition: form-data; name="a' + run, b'Content-Disposition: form-data; name="a"; filename="' + run + b'x',
+                 b'Content-Disposition: form-data; name=' + run + b'"a"', b'Content-Disposition: form-data' + run + b'; name="a"',
+                 b'Content-Disposition: form-data; name="a' + run + b'"'][(a // 4) % 5]
+        return body[:s] + shape + body[e:]
     if mut.startswith('hdr_') and hdrs:
         s, e = hdrs[a % len(hdrs)]
         new = {'hdr_nonutf8': b'Content-Disposition: form-data; name="\xff\xfe"', 'hdr_nocolon': b'Content-Disposition form-data name="a"',
@@ -140,11 +149,13 @@ def case_st(draw):
             'pattern': draw(st.one_of(st.just([]), st.lists(st.integers(1, 9), min_size=1, max_size=4))), 'method': draw(st.sampled_from(['POST', 'PUT', 'POST', 'GET']))}
 
 
-class _Hang(Exception):
+class _Hang(BaseException):         # not an Exception: the framework's catch-all must not turn the watchdog into a 500 page
     pass
 
 
 def _alarm(signum, frame):
+    # re-arm first: if this exception lands somewhere that swallows it (a gc callback, a __del__), the next one follows a second later
+    signal.alarm(1)
     raise _Hang()
 
 
@@ -196,16 +207,20 @@ def check_case(ctx, case):
     app.route('/x', method=['POST', 'PUT', 'GET'], callback=h)
     env = make_environ(case['method'], '/x', stream=FragStream(wire, case['pattern']), content_length=cl, headers=headers, qs='q=1')
     old = signal.signal(signal.SIGALRM, _alarm)
-    signal.alarm(30)
+    signal.alarm(WATCHDOG_S)
     try:
-        r = call_app(app, env)
-    finally:
-        signal.alarm(0)
-        signal.signal(signal.SIGALRM, old)
+        try:
+            r = call_app(app, env)
+        finally:
+            signal.alarm(0)
+            signal.signal(signal.SIGALRM, old)
+    except _Hang:
+        raise CheckFailure(f'request did not finish within {WATCHDOG_S} s: family={case["family"]} mutations={case["mutations"]} ctype={case["ctype"]!r} framing={case["framing"]} '
+                           f'B={case["B"]} access={case["access"]} body={case["body"][:300]!r}')
     what = (f'family={case["family"]} mutations={case["mutations"]} ctype={case["ctype"]!r} framing={case["framing"]} B={case["B"]} access={case["access"]} '
             f'body={case["body"][:200]!r}{"..." if len(case["body"]) > 200 else ""}')
     if isinstance(r.escaped, _Hang):
-        raise CheckFailure(f'request did not finish within 30 s: {what}')
+        raise CheckFailure(f'request did not finish within {WATCHDOG_S} s: {what}')
     if r.escaped is not None:
         raise CheckFailure(f'exception escaped the application: {fmt_exc(r.escaped)}\n{what}')
     if r.code is None or not (200 <= r.code < 300 or 400 <= r.code < 500):
@@ -299,6 +314,21 @@ def run(ctx):
                                      'framing': 'chunked', 'fr_a': 0, 'fr_b': 1, 'chunks': [k] * (len(body) // k + 1), 'B': 102400, 'access': ['POST'], 'pattern': [],
                                      'method': 'POST'})
         ctx.count('buffer_sweep_grid')
+        # the chunked framing of that form cut at EVERY wire offset (truncated transfer coding), read through three accessors
+        wire_len = len(encode_chunked(body, [7])[0])
+        for cut in range(wire_len + 1):
+            for acc in (['body'], ['POST'], ['json']):
+                ctx.guarded(check_case, {'family': 'multipart', 'body': body, 'ctype': 'multipart/form-data; boundary=bnd', 'boundary': 'bnd', 'mutations': [['wire_cut', cut, 0]],
+                                         'framing': 'chunked_trunc', 'fr_a': cut, 'fr_b': 1, 'chunks': [7], 'B': 64, 'access': acc, 'pattern': [], 'method': 'POST'})
+        ctx.count('chunked_wire_truncation_grid')
+        # runs of one character inside a parameter of a part header (every character x shape x two lengths)
+        wf2, truth2 = encode_multipart('bnd', parts, b'', b'\r\n')
+        for a in range(0, 20):
+            for b in range(10):
+                mutated = mutate(wf2, truth2, 'hdr_run', a, b, 'bnd')
+                ctx.guarded(check_case, {'family': 'multipart', 'body': mutated, 'ctype': 'multipart/form-data; boundary=bnd', 'boundary': 'bnd', 'mutations': [['hdr_run', a, b]],
+                                         'framing': 'length', 'fr_a': 0, 'fr_b': 1, 'chunks': [], 'B': 102400, 'access': ['POST'], 'pattern': [], 'method': 'POST'})
+        ctx.count('header_run_grid')
         # every JSON pool document x accessor x framing with a buffer that holds it (deep nesting needs a large buffer to get past the size cap)
         for doc in JSON_POOL + [b'{"k":' * 1200 + b'1' + b'}' * 1200, b'[' * 1200 + b']' * 1200]:
             for acc in (['json'], ['forms'], ['POST'], ['params'], ['body', 'json']):
